@@ -48,8 +48,13 @@ def publish_value_(
 
         return ops.multicast(subject_factory=subject_factory, mapper=mapper)
 
-    subject = BehaviorSubject(initial_value)
-    return ops.multicast(subject)
+    def publish_value(source: Observable[_T1]) -> ConnectableObservable[_T1]:
+        # Create the subject per application so that one operator object
+        # applied to several sources does not make them share a subject.
+        subject = BehaviorSubject(initial_value)
+        return ops.multicast(subject)(source)  # type: ignore
+
+    return publish_value
 
 
 __all__ = ["publish_value_"]
